@@ -6609,11 +6609,7 @@ fn regular_serialize_vec<T: Serialize>(
 ) -> Result<(), SavefileError> {
     let l = items.len();
     serializer.write_usize(l)?;
-    if std::mem::size_of::<T>() == 0 {
-        return Ok(());
-    }
-
-    if std::mem::size_of::<T>() < 32 {
+    if std::mem::size_of::<T>() != 0 && std::mem::size_of::<T>() < 32 {
         //<-- This optimization seems to help a little actually, but maybe not enough to warrant it
         let chunks = items.chunks_exact((64 / std::mem::size_of::<T>()).max(1));
         let remainder = chunks.remainder();
